@@ -76,7 +76,7 @@ class Fn:
             if x.is_const() and x.const() == 1:
                 return core.lift(0)
             stubs._hit("uninterpreted ln")
-            return core.CTX.uf("ln", x)
+            return opaque("ln", x)
         return math.log(float(x))
 
     def pw(self, x, lam):
@@ -86,18 +86,20 @@ class Fn:
             if x.is_const() and x.const() == 1:
                 return core.lift(1)
             stubs._hit("uninterpreted pow")
-            return core.CTX.uf(f"pw_{lam.numerator}_{lam.denominator}".replace("-", "m"), x)
+            return opaque(f"pw_{lam.numerator}_{lam.denominator}", x)
         return float(x) ** float(lam)
 
     def cdf(self, x, dof):
         if dof == 0:
             return float("nan")
+        if isinstance(x, float) and (math.isinf(x) or math.isnan(x)):
+            return 1.0 if x == float("inf") else float("nan")
         if self.symbolic:
             x = core.lift(x)
             if x.is_const() and x.const() == 0:
                 return core.lift(0)
             stubs._hit("uninterpreted chi2.cdf")
-            return core.CTX.uf(f"chi2cdf_{dof}", x)
+            return opaque(f"chi2cdf_{dof}", x)
         from scipy import stats as _st
         return float(_st.chi2.cdf(float(x), df=dof))
 
@@ -109,6 +111,18 @@ class Fn:
 
     def lt(self, a, b):
         return bool(a < b)
+
+
+def opaque(fname, x):
+    """uninterpreted function application as an unconstrained atom, shared by all applications to the same canonical argument (syntactic
+    congruence).  Leaving the atom unconstrained over-approximates (sound for proofs); a counterexample that exploits it does not replay."""
+    x = core.lift(x)
+    ctx = core.CTX
+    key = (fname, x.q)
+    if key not in ctx.uf_apps:
+        g, _ = ctx.fresh()
+        ctx.uf_apps[key] = g
+    return ctx.uf_apps[key]
 
 
 def abbrev(x, pos=False, define=True):
@@ -156,6 +170,7 @@ def _contingency_model(obs, lam, F, correction=True):
     rows = [sum(obs[i][1:], obs[i][0]) for i in range(r)]
     cols = [sum((obs[i][j] for i in range(1, r)), obs[0][j]) for j in range(c)]
     n = sum(rows[1:], rows[0])
+    n_raw = n
     if F.symbolic and F.abbreviate:
         # marginal totals as atoms (sums of positive multiplicities)
         rows = [abbrev(v, pos=True) for v in rows]
@@ -171,16 +186,23 @@ def _contingency_model(obs, lam, F, correction=True):
         return F.zero(), 0, exp
     obs = [list(row) for row in obs]
     if dof == 1 and correction:
+        # Yates' correction: observed moves towards expected by min(1/2, |expected - observed|).  In a 2x2 table expected - observed equals
+        # +D, -D, -D, +D with D = (o01 o10 - o00 o11) / n, so the sign and size of the correction are decided once, on the determinant
+        # (scipy computes the same quantities cell by cell).
         half = Fraction(1, 2) if F.symbolic else 0.5
-        for i in range(r):
-            for j in range(c):
-                d = exp[i][j] - obs[i][j]
-                if F.gt(d, 0):
-                    mag = d if F.lt(d, half) else half
-                    obs[i][j] = obs[i][j] + mag
-                elif F.lt(d, 0):
-                    mag = -d if F.lt(-d, half) else half
-                    obs[i][j] = obs[i][j] - mag
+        D = (obs[0][1] * obs[1][0] - obs[0][0] * obs[1][1]) / n_raw
+        if F.gt(D, 0):
+            small, sgn = F.lt(D, half), 1
+        elif F.lt(D, 0):
+            small, sgn = F.lt(-D, half), -1
+        else:
+            small, sgn = True, 0
+        if small:
+            obs = [list(row) for row in exp]          # observed + (expected - observed)
+        else:
+            for i in range(2):
+                for j in range(2):
+                    obs[i][j] = obs[i][j] + (half if (i + j) % 2 == 0 else -half) * sgn
     stat = F.zero()
     for i in range(r):
         for j in range(c):
@@ -259,7 +281,7 @@ class _StatsC:
         if bool(vx == 0) or bool(vy == 0):
             return float("nan"), float("nan")
         r2 = cov * cov / (vx * vy)
-        return RVal(cov, vx, vy), core.CTX.uf(f"pearson_p_{len(xs)}", r2)
+        return RVal(cov, vx, vy), opaque(f"pearson_p_{len(xs)}", r2)
 
 
 def pearson_parts(xs, ys):
@@ -402,16 +424,19 @@ def scenarios(tier, seed):
                 k += 1
                 if tier == "quick":
                     # rotate tests over support patterns; the Pearson family everywhere
-                    if test != "chi_square" and (k + seed) % 3:
+                    if (k + seed) % 4 and not (test == "chi_square" and si % 2 == 0):
                         continue
-                for dt in (["int", "cat", "str"] if (si + ti) % 4 == 0 else ["int"]):
+                for dt in (["int", "cat", "str"] if (si + ti) % 5 == 0 else ["int"]):
                     out.append(dict(family=f"discrete/{test}", mode="discrete", test=test, lam=lam, xc=xc, yc=yc, zc=zc, absent=[list(map(_jsonable, a)) for a in absent],
-                                    dtype=dt, indep=False, hashseed=k % 2, budget_s=90, max_paths=400, cost=2 + len(zc)))
+                                    dtype=dt, indep=False, hashseed=k % 2, budget_s=40 if tier == "quick" else 300,
+                                    max_paths=(60 if tier == "quick" else 700), cost=5 ** len(zs_of(zc))))
         # exactly independent tables (product-form multiplicities)
         for (test, lam) in [("chi_square", None), ("g_sq", None), ("power_divergence", "cressie-read"), ("modified_log_likelihood", None), ("power_divergence", "neyman")]:
             k += 1
+            if tier == "quick" and (k + seed) % 2 and len(zc) > 1:
+                continue
             out.append(dict(family=f"independent/{test}", mode="discrete", test=test, lam=lam, xc=xc, yc=yc, zc=zc, absent=[], dtype="int", indep=True,
-                            hashseed=k % 2, budget_s=90, max_paths=400))
+                            hashseed=k % 2, budget_s=60, max_paths=100, cost=3))
     # declared-but-unobserved categories (categorical dtype)
     for test in ("chi_square", "g_sq"):
         for which in ("X", "Y", "Z"):
@@ -430,6 +455,10 @@ def scenarios(tier, seed):
     for n in (6, 9):
         out.append(dict(family="pearsonr/unconditional", mode="pearsonr0", n=n, hashseed=0, concrete_only=True))
     return out
+
+
+def zs_of(zc):
+    return list(itertools.product(*[range(c) for c in zc])) if zc else [()]
 
 
 def _jsonable(a):
@@ -645,9 +674,22 @@ def run_pearsonr(desc, M):
             if not isinstance(coef, RVal):
                 M.fail(f"partial correlation equals the Pearson correlation of the regression residuals [{what}]", f"coefficient is {coef!r}")
                 return
-            M.eq(coef.cov * coef.cov * (vx_o * vy_o), cov_o * cov_o * (coef.vx * coef.vy),
-                 f"partial correlation equals the Pearson correlation of the regression residuals (squared) [{what}]", detail=f"n={n} Z={zcols}")
-            M.le(0, coef.cov * cov_o, f"partial correlation has the sign of the residual covariance [{what}]", detail=f"n={n} Z={zcols}")
+            lab = f"partial correlation equals the Pearson correlation of the regression residuals (squared) [{what}]"
+            if coef.cov.q == cov_o.q and coef.vx.q == vx_o.q and coef.vy.q == vy_o.q:
+                # covariance and both variances of the residuals are the oracle's rational functions: r is the same, sign included
+                for a, b in ((coef.cov, cov_o), (coef.vx, vx_o), (coef.vy, vy_o)):
+                    M.eq(a, b, lab, detail=f"n={n} Z={zcols}")
+                return
+            M.eq(coef.cov * coef.cov * (vx_o * vy_o), cov_o * cov_o * (coef.vx * coef.vy), lab, detail=f"n={n} Z={zcols}")
+            slab = f"partial correlation has the sign of the residual covariance [{what}]"
+            ratio = coef.cov.q / cov_o.q if cov_o.q != 0 else None
+            sn = core.poly_sign(ratio.numer) if ratio is not None else None
+            sd = core.poly_sign(ratio.denom) if ratio is not None else None
+            if sn is not None and sd is not None:
+                # the two covariances differ by a factor of known sign (e.g. the square of the positive scale)
+                M.check(sn * sd > 0, slab, detail=f"n={n} Z={zcols}: ratio {ratio}")
+            else:
+                M.le(0, coef.cov * cov_o, slab, detail=f"n={n} Z={zcols}")
         else:
             want = float(cov_o) / math.sqrt(float(vx_o) * float(vy_o))
             ok = abs(float(coef) - want) <= 1e-6
@@ -682,8 +724,9 @@ def run_pearsonr(desc, M):
     coef2, p2 = CI.pearsonr("X", "Y", Z, d2, boolean=False)
     same_as_oracle(coef2, f"after {variant}")
     if M.symbolic and isinstance(coef, RVal) and isinstance(coef2, RVal):
-        M.eq(coef.cov * coef.cov * (coef2.vx * coef2.vy), coef2.cov * coef2.cov * (coef.vx * coef.vy),
-             "partial correlation is invariant to shifting / positively rescaling a variable", detail=variant)
+        r2a = coef.cov * coef.cov / (coef.vx * coef.vy)
+        r2b = coef2.cov * coef2.cov / (coef2.vx * coef2.vy)
+        M.eq(r2a, r2b, "partial correlation is invariant to shifting / positively rescaling a variable", detail=variant)
         M.eq(p, p2, "p-value is invariant to shifting / positively rescaling a variable", detail=variant)
     elif not M.symbolic:
         M.check(abs(float(coef) - float(coef2)) <= 1e-6, "partial correlation is invariant to shifting / positively rescaling a variable",
